@@ -35,8 +35,36 @@ type debWorld struct {
 	started   int // refresh starts observed
 	released  int // refreshFn calls released
 	reqs      []int
-	listeners []<-chan error
+	listeners []debListener
+	early     []int
 	hung      string
+}
+
+// a caller of refreshNow(): its position among the requests, the channel it listens on
+type debListener struct {
+	req      int
+	ch       <-chan error
+	answered bool
+}
+
+// pollListeners: which callers of refreshNow() have their answer. An answer is the result of a refresh that has
+// returned, i.e. of one of the first `released` refreshes: if the caller made its call when that many (or more) had
+// already started, it was handed the result of a refresh that started before its call.
+func (d *debWorld) pollListeners() {
+	for i := range d.listeners {
+		l := &d.listeners[i]
+		if l.answered {
+			continue
+		}
+		select {
+		case <-l.ch:
+			l.answered = true
+			if d.released <= d.reqs[l.req] {
+				d.early = append(d.early, l.req)
+			}
+		default:
+		}
+	}
 }
 
 func (d *debWorld) close() {
@@ -78,6 +106,7 @@ func (d *debWorld) waitStart() bool {
 		select {
 		case k := <-d.v.Started():
 			d.started = k
+			d.pollListeners() // the flusher is inside refreshFn: every broadcast of the refreshes before is done
 			return true
 		case <-time.After(debWatchdog):
 		}
@@ -174,7 +203,7 @@ func debExec(w *world, f []string) string {
 	case "evdbnow":
 		_, _, _, bc := d.v.State()
 		d.reqs = append(d.reqs, d.started)
-		d.listeners = append(d.listeners, d.v.RefreshNow())
+		d.listeners = append(d.listeners, debListener{req: len(d.reqs) - 1, ch: d.v.RefreshNow()})
 		if !d.running() && !bc {
 			d.waitStart() // a token went into refreshNowCh and the flusher is in its select
 		}
@@ -200,21 +229,28 @@ func debExec(w *world, f []string) string {
 		if len(lost) > 0 {
 			return "lost:" + joinInts(lost)
 		}
-		// every refreshNow() caller gets the result of a refresh (broadcast after refreshFn returned)
-		for i, l := range d.listeners {
-			ok := false
-			for w := 0; w < 2 && !ok; w++ {
+		// every refreshNow() caller gets the result of a refresh (broadcast after refreshFn returned) that started after its call
+		d.pollListeners()
+		if len(d.early) > 0 {
+			return "early:" + joinInts(d.early)
+		}
+		var un []int
+		for i := range d.listeners {
+			l := &d.listeners[i]
+			for w := 0; w < 2 && !l.answered; w++ {
 				select {
-				case <-l:
-					ok = true
+				case <-l.ch:
+					l.answered = true
 				case <-time.After(debWatchdog):
 				}
 			}
-			if !ok {
-				return fmt.Sprintf("listener-unanswered:%d", i)
+			if !l.answered {
+				un = append(un, l.req)
 			}
 		}
-		d.listeners = nil
+		if len(un) > 0 {
+			return "unanswered:" + joinInts(un)
+		}
 		return "ok"
 	default:
 		return "bad-op"
